@@ -333,7 +333,11 @@ Definition show_build_info (i : build_info) : str :=
   S_ " B " ++ hex (bi_builder i) ++ S_ " " ++ hex (bi_binary i) ++ S_ " " ++ hex (bi_out i) ++ S_ " " ++
   show_list (bi_modules i) ++ S_ " " ++ show_list (bi_build_order i) ++ S_ " " ++
   show_dec (N.of_nat (length (bi_tasks i))) ++
-  flat_map (fun nt => " "%char :: hex (fst nt) ++ match snd nt with inl _ => S_ " ok" | inr _ => S_ " err" end)
+  flat_map (fun nt => " "%char :: hex (fst nt) ++
+                      match snd nt with
+                      | inl t => S_ " ok " ++ show_list (t_cmd t) ++ S_ " " ++
+                                 show_list (flat_map (fun e : export_spec => [fst e; odflt [] (snd e)]) (odflt [] (t_export t)))
+                      | inr _ => S_ " err" end)
            (sort_by_key (bi_tasks i)).
 
 Definition show_gen (g : gen_result) : str :=
@@ -389,12 +393,20 @@ Definition handle2 (line : str) : str :=
 Require Import Laze.model.Checks.
 
 Definition find_binary (b : bag) (builder : nat) (app : str) : option module :=
-  (* the binary of that name whose context is the builder or an ancestor (first in bag order) *)
+  (* the binary of that name that the builder sees: the nearest definition up its chain (an app of the same
+     name further up is shadowed and not built, fix 94ae0f6); otherwise the first in bag order whose context is
+     the builder or an ancestor *)
+  match (match resolve_module b builder app with
+         | Some m => if m_is_binary m then Some m else None
+         | None => None end) with
+  | Some m => Some m
+  | None =>
   find (fun m => str_eqb (m_name m) app &&
                  match m_context_id m with
                  | Some ci => match is_ancestor (tree_fuel (bag_tree b)) (bag_tree b) ci builder 0 with
                               | Ok (Some _) => true | _ => false end
-                 | None => false end) (binaries b).
+                 | None => false end) (binaries b)
+  end.
 
 Definition check_modules (t : ytree) (c : cli) (builder app : str) (names : list str) : res (bool * bool * bool) :=
   rbind (load t (S_ "laze-project.yml") (le_build_dir (cl_le c))) (fun b =>
